@@ -53,6 +53,8 @@ type runCfg struct {
 	work     string
 	only     string // run only this descriptor (replay)
 	verbose  bool
+	bridge   string
+	exclude  map[string]string // descriptor -> crash description (declarations on which goose panics)
 }
 
 func selectProgs(cfg runCfg) []progenum.Prog {
@@ -75,8 +77,17 @@ func selectProgs(cfg runCfg) []progenum.Prog {
 			if pos.InMapLoop && fm.WritesM {
 				continue
 			}
+			if pos.ID == "P15_closure_body" && strings.Contains(fm.Code, "return a, b, sv") {
+				continue // the form returns from the enclosing function
+			}
 			pr := progenum.Build(pos, fm)
 			if cfg.only != "" && pr.Name != cfg.only {
+				continue
+			}
+			if _, crashed := cfg.exclude[pr.Name]; crashed {
+				continue
+			}
+			if _, crashed := cfg.exclude["DECL:"+fm.ID]; crashed {
 				continue
 			}
 			progs = append(progs, pr)
@@ -102,6 +113,18 @@ var funcRe = regexp.MustCompile(`^func (?:\([a-z]+ \*?S\) M)?(F_[A-Za-z0-9_]+)\(
 
 func indexFile(path, content string, idx lineIndex) {
 	for i, l := range strings.Split(content, "\n") {
+		if strings.HasPrefix(l, "// DECLS ") {
+			idx[path] = append(idx[path], struct {
+				line int
+				name string
+			}{i + 1, "DECL:" + strings.TrimPrefix(l, "// DECLS ")})
+		}
+		if l == "// ENDDECLS" {
+			idx[path] = append(idx[path], struct {
+				line int
+				name string
+			}{i + 1, ""})
+		}
 		if m := funcRe.FindStringSubmatch(l); m != nil {
 			idx[path] = append(idx[path], struct {
 				line int
@@ -151,7 +174,8 @@ func run(cfg runCfg, acc *ev.Acc) {
 	}
 	rc := exec.Command(filepath.Join(cfg.work, "run.bin"))
 	rc.Stdout = &goOut
-	rc.Stderr = os.Stderr
+	var goErr bytes.Buffer
+	rc.Stderr = &goErr // println() of generated programs
 	must(rc.Run())
 	goRes := map[string]map[int]string{}
 	sc := bufio.NewScanner(&goOut)
@@ -183,6 +207,19 @@ func run(cfg runCfg, acc *ev.Acc) {
 		must(gerrRun)
 	}
 	if exit != 0 && exit != 1 {
+		// goose crashed: find the crashing declarations through the bridge, set them aside, start over
+		if cfg.bridge != "" && len(cfg.exclude) < 400 {
+			found := findCrashers(cfg, gen, idx)
+			if len(found) > 0 {
+				for k, v := range found {
+					cfg.exclude[k] = v
+				}
+				os.RemoveAll(gen)
+				os.RemoveAll(outDir)
+				run(cfg, acc)
+				return
+			}
+		}
 		acc.Violate(ev.Violation{Key: cfg.prop + "/goose-crash", Msg: "goose exited with status " + fmt.Sprint(exit) + ": " + tailStr(gerr.String(), 1500), Replay: map[string]any{"tier": cfg.tier}})
 		return
 	}
@@ -239,12 +276,56 @@ func run(cfg runCfg, acc *ev.Acc) {
 	report(cfg, results, acc)
 }
 
+// findCrashers asks the bridge tool which declarations make the translator panic.
+func findCrashers(cfg runCfg, gen string, idx lineIndex) map[string]string {
+	c := exec.Command(cfg.bridge, "./p")
+	c.Dir = gen
+	out, err := c.Output()
+	if err != nil {
+		return nil
+	}
+	var pkgs []struct {
+		Decls []struct {
+			File     string `json:"file"`
+			Line     int    `json:"line"`
+			GoName   string `json:"go_name"`
+			Panic    string `json:"panic"`
+			PanicTop string `json:"panic_top"`
+		} `json:"decls"`
+	}
+	if json.Unmarshal(out, &pkgs) != nil {
+		return nil
+	}
+	found := map[string]string{}
+	for _, p := range pkgs {
+		for _, d := range p.Decls {
+			if d.Panic == "" {
+				continue
+			}
+			name := idx.lookup(d.File, d.Line)
+			if name != "" {
+				found[name] = d.Panic + " @ " + d.PanicTop
+			}
+		}
+	}
+	return found
+}
+
 func evalProg(p progenum.Prog, file *gl.File, rejected map[string]string, goRes map[int]string, vecs []progenum.Vector, cfg runCfg) result {
 	r := result{prog: p}
+	if why, ok := rejected["DECL:"+p.Form.ID]; ok {
+		rejected[p.Name] = "(helper declaration) " + why
+	}
 	if why, ok := rejected[p.Name]; ok {
 		r.reject = why
 		r.kind, r.msg = "rejected:"+normalize(why), "goose rejects the declaration: "+why
 		return r
+	}
+	for _, b := range file.Bad {
+		if b.Name == p.Name || b.Name == "S__M"+p.Name {
+			r.kind, r.msg = "malformed-output:"+normalize(b.Err), "the emitted definition is not well-formed GooseLang: "+b.Err+"\n"+b.Raw
+			return r
+		}
 	}
 	if _, ok := file.Defs[p.Name]; !ok {
 		r.kind, r.msg = "missing-definition", "no Definition "+p.Name+" in the emitted file and no error reported"
@@ -320,6 +401,15 @@ func tailStr(s string, n int) string {
 }
 
 func report(cfg runCfg, results []result, acc *ev.Acc) {
+	for name, why := range cfg.exclude {
+		acc.Add("declarations_on_which_goose_panics", 1)
+		acc.Set("crash_sites", normalize(why))
+		if cfg.prop == "C01" {
+			acc.Violate(ev.Violation{Key: "C01/crash/" + name + "/" + normalize(why), Msg: "goose panics on a program of the supported subset: " + name + ": " + why, Replay: map[string]any{"descriptor": name}})
+		} else {
+			acc.Note("goose panics (neither conversion error nor translation; judged by C07): " + name + ": " + normalize(why))
+		}
+	}
 	for _, r := range results {
 		fam := r.prog.Form.Family
 		if fam == "" {
@@ -368,13 +458,14 @@ func main() {
 	tier := flag.String("tier", "quick", "")
 	replay := flag.String("replay", "", "")
 	goose := flag.String("bin", "", "goose binary")
+	bridgeBin := flag.String("bridge", "", "gooseb binary")
 	only := flag.String("only", "", "single descriptor")
 	verbose := flag.Bool("v", false, "")
 	flag.Parse()
 	start := time.Now()
 	work, _ := os.MkdirTemp("", "verif-"+strings.ToLower(*prop)+"-")
 	defer os.RemoveAll(work)
-	cfg := runCfg{prop: *prop, tier: *tier, goose: *goose, work: work, only: *only, verbose: *verbose}
+	cfg := runCfg{prop: *prop, tier: *tier, goose: *goose, work: work, only: *only, verbose: *verbose, bridge: *bridgeBin, exclude: map[string]string{}}
 	if *replay != "" {
 		var rf struct {
 			Replay struct {
